@@ -1,4 +1,5 @@
 import NexoVerif.Model.PQ
+import NexoVerif.Model.Heap
 /-! Line protocol for the `pq` engine (M-PQ). -/
 namespace Driver.PQ
 open NexoVerif.PQ
@@ -6,7 +7,7 @@ open NexoVerif.PQ
 inductive St where
   | none
   | pq (q : PQ)
-  | ipq (q : IPQ)
+  | ipq (q : IPQ) (h : NexoVerif.Heap.HQ)
 
 def showKV : Option (Nat × Nat) → String
   | .none => "none"
@@ -15,27 +16,39 @@ def showKV : Option (Nat × Nat) → String
 def step (st : St) (ws : List String) : St × String :=
   match ws, st with
   | ["case", "pq"], _ => (.pq PQ.new, "ok")
-  | ["case", "ipq"], _ => (.ipq IPQ.new, "ok")
+  | ["case", "ipq"], _ => (.ipq IPQ.new NexoVerif.Heap.HQ.new, "ok")
   | ["ins", k, v], .pq q =>
     match k.toNat?, v.toNat? with
     | some k, some v => (.pq (q.insert k v), "-")
     | _, _ => (st, "bad-op")
   | ["pull"], .pq q => let (q', r) := q.pull; (.pq q', showKV r)
   | ["peek"], .pq q => (st, showKV q.peek)
-  | ["ins", k, v], .ipq q =>
+  -- the keyed queue: the mid-level model answers, the transliterated heap (M-HEAP) runs next to it and must agree
+  | ["ins", k, v], .ipq q h =>
     match k.toNat?, v.toNat? with
     | some k, some v =>
       let (q', (i, e)) := q.insert k v
-      if q'.err then (.ipq q', "panic") else (.ipq q', s!"key {i} {e}")
+      let (h', kh) := h.insert k v
+      let tag := if kh == (i, e) && h'.err == q'.err then "" else " HEAP-MISMATCH"
+      if q'.err then (.ipq q' h', "panic" ++ tag) else (.ipq q' h', s!"key {i} {e}" ++ tag)
     | _, _ => (st, "bad-op")
-  | ["pull"], .ipq q => let (q', r) := q.pull; (.ipq q', showKV r)
-  | ["peek"], .ipq q => (st, showKV q.peek)
-  | ["peekkey"], .ipq q => (st, match q.peekKey with | .none => "none" | .some k => s!"some {k}")
-  | ["len"], .ipq q => (st, s!"len {q.len}")
-  | ["ext", i, e], .ipq q =>
+  | ["pull"], .ipq q h =>
+    let (q', r) := q.pull
+    let (h', rh) := h.pull
+    (.ipq q' h', showKV r ++ (if rh == r && h'.err == q'.err then "" else " HEAP-MISMATCH"))
+  | ["peek"], .ipq q h => (st, showKV q.peek ++ (if h.peek == q.peek then "" else " HEAP-MISMATCH"))
+  | ["peekkey"], .ipq q h =>
+    (st, (match q.peekKey with | .none => "none" | .some k => s!"some {k}") ++
+      (if h.peekKey == q.peekKey then "" else " HEAP-MISMATCH"))
+  | ["len"], .ipq q h => (st, s!"len {q.len}" ++ (if h.len == q.len then "" else " HEAP-MISMATCH"))
+  | ["ext", i, e], .ipq q h =>
     match i.toNat?, e.toNat? with
-    | some i, some e => let (q', r) := q.extract i e; (.ipq q', showKV r)
+    | some i, some e =>
+      let (q', r) := q.extract i e
+      let (h', rh) := h.extract i e
+      (.ipq q' h', showKV r ++ (if rh == r && h'.err == q'.err then "" else " HEAP-MISMATCH"))
     | _, _ => (st, "bad-op")
+  | ["raw"], .ipq _ h => (st, h.raw)
   | _, _ => (st, "bad-op")
 
 end Driver.PQ
